@@ -41,6 +41,9 @@ def main():
     if pid == "C17":
         from . import c17
         return c17.run(rest)
+    if pid == "C20":
+        from . import c20
+        return c20.run(rest)
     if pid == "C19":
         from . import c19
         return c19.run(rest)
